@@ -21,7 +21,7 @@ import (
 type c06Config struct {
 	Service, Product string
 	Suffix           string
-	Cache            string // "session" | "shared" | "none"
+	Cache            string // "session" | "shared" | "sessioncache" | "none"
 	Tokens           int
 }
 
@@ -78,6 +78,10 @@ func (c c06Config) spec() PolicySpec {
 		return SpecSharedIKOnly("lru", 100000)
 	case "none":
 		return SpecNoCache
+	case "sessioncache":
+		// sessions are handed out by the session cache (larger than the universe: nothing is evicted while held)
+		sp := SpecSessions("slru", 100000)
+		return sp
 	}
 	return SpecDefault
 }
@@ -106,6 +110,14 @@ func c06Run(cfg c06Config, r *Report, sigSeen map[string]bool) {
 			return
 		}
 		recs[i] = rec
+		// a partition's records name that partition's key and nothing else
+		if want := ref.IntermediateKeyID(id, cfg.Service, cfg.Product, cfg.Suffix); rec.Key == nil || rec.Key.ParentKeyMeta == nil || rec.Key.ParentKeyMeta.ID != want {
+			sig := cfg.name() + ":record-under-foreign-key-id"
+			if !sigSeen[sig] {
+				sigSeen[sig] = true
+				r.Viols = append(r.Viols, Viol{Property: "C06", Harness: "C06/" + cfg.name(), Sig: sig, Msg: fmt.Sprintf("the record encrypted by the session of partition %q names key id %v, want %s", id, rec.Key, want), Ops: []string{id}})
+			}
+		}
 	}
 	// sanity / non-vacuity: every session decrypts its own record
 	for i := range ids {
@@ -198,7 +210,7 @@ func CheckC06(r *Report) {
 	sigSeen := map[string]bool{}
 	for _, sp := range [][2]string{{"s", "p"}, {"svc_x", "prod_y"}} {
 		for _, sfx := range []string{"", "us-west-2"} {
-			for _, cache := range []string{"session", "shared", "none"} {
+			for _, cache := range []string{"session", "shared", "sessioncache", "none"} {
 				if !r.Thorough() && cache == "none" {
 					continue
 				}
